@@ -19,6 +19,7 @@ DATA_SIZE = 0x3000
 SP0 = 0x7FF00                # initial stack pointer (16-byte aligned), far away from every visible region
 SENTINEL = 0xDEAD0000        # return address of the outermost call
 CALLER_FRAME = 32            # bytes at SP0.. that belong to the caller (stack arguments live here) and must survive
+CALLER_AREA = 0x8000         # no store may go to [SP0, SP0 + CALLER_AREA) except into incoming stack-argument slots
 M32 = 0xFFFFFFFF
 MAX_EXT = _tv.MAX_EXT
 
@@ -241,9 +242,22 @@ def reg_width_value(o, v, n, signed=None):
     return v & ((1 << n) - 1)
 
 
-def emulate(b, o, x, mem, on_ext, max_steps):
+def above_sp0(o, a, allowed):
+    """condition 'byte address a lies in the caller's stack area [SP0, SP0 + CALLER_AREA)' (minus the incoming
+    stack-argument slots, which belong to the callee); None if certainly not"""
+    if not o.sym:
+        a &= M32
+        return True if (SP0 <= a < SP0 + CALLER_AREA and a not in allowed) else None
+    c = z3.And(z3.UGE(a, z3.BitVecVal(SP0, 32)), z3.ULT(a, z3.BitVecVal(SP0 + CALLER_AREA, 32)),
+               *[a != z3.BitVecVal(k, 32) for k in sorted(allowed)])
+    c = z3.simplify(c)
+    return None if z3.is_false(c) else c
+
+
+def emulate(b, o, x, mem, on_ext, max_steps, wild=None, allowed=()):
     """run from b.entry until pc == SENTINEL.  x: list of 32 register values (domain o), mem: memory.
-    on_ext(stub, x, mem) handles a call that reached an external symbol.  Returns (x, mem, steps)."""
+    on_ext(stub, x, mem) handles a call that reached an external symbol.  wild: list collecting the
+    conditions under which a store hit the caller's stack area.  Returns (x, mem, steps)."""
     pc = b.entry
     steps = 0
     img = b.image
@@ -269,6 +283,10 @@ def emulate(b, o, x, mem, on_ext, max_steps):
         if e.wr and rd:
             x[rd] = z3.simplify(e.val) if o.sym else e.val
         for (a, v) in e.stores:
+            if wild is not None:
+                c = above_sp0(o, a, allowed)
+                if c is not None:
+                    wild.append(c)
             mem = mem.store_byte(a, v)
         pc = (pc + ilen) & M32 if e.npc is None else next_pc(o, e.npc)
     return x, mem, steps
